@@ -168,9 +168,13 @@ class SubCtx:
 
 def stage_concretise(ctx, o, r):
     """counter-model concretiser of the stage module an included obligation came from"""
-    import importlib
+    import importlib, copy
     fn = getattr(importlib.import_module(f"props.{o.info['stage']}"), "concretise", None)
-    return fn(ctx, o, r) if fn else None
+    if fn is None:
+        return None
+    o2 = copy.copy(o)
+    o2.info = {k: v for k, v in o.info.items() if k != "stage"}  # the stage module sees its own obligation (no re-dispatch)
+    return fn(ctx, o2, r)
 
 
 def include_stage(ctx, mod_name, only=None):
